@@ -53,6 +53,7 @@ type frame struct {
 	panicking        bool
 	panic            interface{}
 	phitemps         []value
+	skipPhis         bool
 }
 
 type continuation int
@@ -176,6 +177,9 @@ func visitInstr(fr *frame, instr ssa.Instruction) continuation {
 
 	case *ssa.If:
 		c := fr.get(instr.Cond).(*Term)
+		if !c.IsConst() && !noMerge && fr.tryMerge(c) {
+			return kJump
+		}
 		succ := 1
 		if r.branch(c) {
 			succ = 0
@@ -441,6 +445,10 @@ func executePhis(fr *frame) []ssa.Instruction {
 		}
 	}
 	nonPhis := fr.block.Instrs[firstNonPhi:]
+	if fr.skipPhis {
+		fr.skipPhis = false
+		return nonPhis
+	}
 	if firstNonPhi > 0 {
 		phis := fr.block.Instrs[:firstNonPhi]
 		predIndex := -1
@@ -572,4 +580,201 @@ func opaqueResults(sig *types.Signature) value {
 		out[i] = mk(res.At(i).Type())
 	}
 	return out
+}
+
+// ---------------------------------------------------------------- if-conversion
+
+var noMerge = false
+
+// sideBlock: x is a side-effect-free block reached only from pred that jumps
+// on; returns its successor.
+func sideBlock(x, pred *ssa.BasicBlock) (*ssa.BasicBlock, bool) {
+	if len(x.Preds) != 1 || x.Preds[0] != pred || len(x.Instrs) == 0 || len(x.Instrs) > 12 {
+		return nil, false
+	}
+	if _, ok := x.Instrs[len(x.Instrs)-1].(*ssa.Jump); !ok {
+		return nil, false
+	}
+	for _, in := range x.Instrs[:len(x.Instrs)-1] {
+		switch in := in.(type) {
+		case *ssa.BinOp:
+			switch in.Op {
+			case token.QUO, token.REM, token.SHL, token.SHR:
+				return nil, false
+			}
+		case *ssa.UnOp:
+			if in.Op == token.ARROW {
+				return nil, false
+			}
+		case *ssa.Convert, *ssa.ChangeType:
+		default:
+			return nil, false
+		}
+	}
+	return x.Succs[0], true
+}
+
+// speculate evaluates the pure instructions of x into scratch; false if any
+// operand is not a plain scalar (so nothing can panic or fork).
+func (fr *frame) speculate(x *ssa.BasicBlock, scratch map[ssa.Value]value) bool {
+	get := func(v ssa.Value) (value, bool) {
+		if r, ok := scratch[v]; ok {
+			return r, true
+		}
+		switch v.(type) {
+		case *ssa.Const:
+			return constValue(v.(*ssa.Const)), true
+		case *ssa.Global, *ssa.Function, *ssa.Builtin:
+			return nil, false
+		}
+		r, ok := fr.env[v]
+		return r, ok
+	}
+	scalar := func(v value) bool {
+		_, ok := v.(*Term)
+		return ok
+	}
+	for _, in := range x.Instrs[:len(x.Instrs)-1] {
+		switch in := in.(type) {
+		case *ssa.BinOp:
+			a, ok1 := get(in.X)
+			b, ok2 := get(in.Y)
+			if !ok1 || !ok2 || !scalar(a) || !scalar(b) {
+				return false
+			}
+			scratch[in] = fr.r.binop(in.Op, in.X.Type(), a, b)
+		case *ssa.UnOp:
+			a, ok := get(in.X)
+			if !ok {
+				return false
+			}
+			if in.Op == token.MUL {
+				p, isPtr := a.(*value)
+				if !isPtr || p == nil || !scalar(*p) {
+					return false
+				}
+				scratch[in] = *p
+			} else {
+				if !scalar(a) {
+					return false
+				}
+				scratch[in] = fr.r.unop(in, a)
+			}
+		case *ssa.Convert:
+			a, ok := get(in.X)
+			if !ok || !scalar(a) {
+				return false
+			}
+			if _, _, isInt := intInfo(in.Type()); !isInt {
+				return false
+			}
+			if _, _, isInt := intInfo(in.X.Type()); !isInt {
+				return false
+			}
+			scratch[in] = fr.r.conv(in.Type(), in.X.Type(), a)
+		case *ssa.ChangeType:
+			a, ok := get(in.X)
+			if !ok {
+				return false
+			}
+			scratch[in] = a
+		}
+	}
+	return true
+}
+
+// tryMerge turns a side-effect-free triangle or diamond below the current If
+// into ite terms at the join's phis instead of forking.
+func (fr *frame) tryMerge(c *Term) bool {
+	b := fr.block
+	T, F := b.Succs[0], b.Succs[1]
+	var join *ssa.BasicBlock
+	var predT, predF *ssa.BasicBlock // the join's predecessor on each side
+	var sides []*ssa.BasicBlock
+	jT, okT := sideBlock(T, b)
+	jF, okF := sideBlock(F, b)
+	switch {
+	case okT && okF && jT == jF && jT != T && jT != F:
+		join, predT, predF = jT, T, F
+		sides = []*ssa.BasicBlock{T, F}
+	case okT && jT == F:
+		join, predT, predF = F, T, b
+		sides = []*ssa.BasicBlock{T}
+	case okF && jF == T:
+		join, predT, predF = T, b, F
+		sides = []*ssa.BasicBlock{F}
+	default:
+		return false
+	}
+	if len(join.Preds) != 2 {
+		return false
+	}
+	scratch := map[ssa.Value]value{}
+	for _, sb := range sides {
+		if !fr.speculate(sb, scratch) {
+			return false
+		}
+	}
+	idx := func(p *ssa.BasicBlock) int {
+		for i, q := range join.Preds {
+			if q == p {
+				return i
+			}
+		}
+		return -1
+	}
+	iT, iF := idx(predT), idx(predF)
+	if iT < 0 || iF < 0 || iT == iF {
+		return false
+	}
+	get := func(v ssa.Value) (value, bool) {
+		if r, ok := scratch[v]; ok {
+			return r, true
+		}
+		switch k := v.(type) {
+		case *ssa.Const:
+			if k.Value == nil {
+				if _, _, isInt := intInfo(k.Type()); !isInt && !isBoolean(k.Type()) {
+					return nil, false
+				}
+			}
+			return constValue(k), true
+		case *ssa.Global, *ssa.Function, *ssa.Builtin:
+			return nil, false
+		}
+		r, ok := fr.env[v]
+		return r, ok
+	}
+	var phis []*ssa.Phi
+	var vals []value
+	for _, in := range join.Instrs {
+		phi, ok := in.(*ssa.Phi)
+		if !ok {
+			break
+		}
+		vT, ok1 := get(phi.Edges[iT])
+		vF, ok2 := get(phi.Edges[iF])
+		if !ok1 || !ok2 {
+			return false
+		}
+		tT, isT := vT.(*Term)
+		tF, isF := vF.(*Term)
+		if !isT || !isF || tT.S != tF.S {
+			return false
+		}
+		phis = append(phis, phi)
+		vals = append(vals, mkIte(c, tT, tF))
+	}
+	// commit
+	for k, v := range scratch {
+		fr.env[k] = v
+	}
+	for i, phi := range phis {
+		fr.env[phi] = vals[i]
+	}
+	fr.r.merges++
+	fr.r.symbolicPath = true
+	fr.prevBlock, fr.block = predT, join
+	fr.skipPhis = true
+	return true
 }
